@@ -175,6 +175,8 @@ def check (pid : String) (j : Json) : Except String Verdict := do
   let mut idleSince : List (RType × String × Nat) := []   -- C19: last lookup (or caching) time per entry
   -- C02: the version of the last ACCEPTED response per type, kept by the script of the history (not read from the client)
   let mut lastAcc : List (RType × String) := RType.all.map (fun rt => (rt, (prev.ver rt).1))
+  let mut evicted : List (RType × String) := []           -- C19: names removed and unsubscribed by a sweep
+  let mut current : List (RType × String × String) := []   -- C19: the control plane's latest value per name
   for st in steps.toList do
     idx := idx + 1
     let kind := jStrD st "o" "?"
@@ -206,6 +208,7 @@ def check (pid : String) (j : Json) : Except String Verdict := do
         match before.filter (fun n => !q.names.contains n) with
         | [n] =>
           r := r.op cfg (.evict q.rt n now) s!"{what}: evict {rtStr q.rt}/{n}"
+          evicted := evicted ++ [(q.rt, n)]
           let rtq := q.rt
           let nm := q.names
           let old := cur
@@ -219,6 +222,7 @@ def check (pid : String) (j : Json) : Except String Verdict := do
           if (step cfg r.s (.evict rt n now)).isSome then
             r := r.fail s!"{what}: model says {rtStr rt}/{n} is expired but the sweep kept it"
       if pid = "C19" then r := r.specFail (c19tick prev o idleSince now)
+      idleSince := idleSince.filter (fun x => (lookupC o x.1 x.2.1).isSome || ((o.interest x.1).getD []).contains x.2.1)
     | "get" =>
       let rt ← match rtOfStr (jStrD st "rt" "?") with | some t => pure t | none => throw "get: type"
       let n ← jStr st "n"
@@ -233,6 +237,13 @@ def check (pid : String) (j : Json) : Except String Verdict := do
       r := r.drain cfg
       r := r.compare o oj uni what
       if o.get != some expected then r := r.fail s!"{what}: lookup {rtStr rt}/{n}: model {expected}, impl {o.get}"
+      if pid = "C19" && evicted.contains (rt, n) then
+        r := r.specFail (c19relookup prev o rt n sendOk)
+        match o.get, current.find? (fun e => e.1 = rt && e.2.1 = n) with
+        | some g, some (_, _, v) =>
+          if g.startsWith "val:" && g != s!"val:{v}" then
+            r := r.specFail (some s!"C19.relookup_current: {rtStr rt}/{n} was evicted; the later lookup returned {g}, the control plane's current value is {v}")
+        | _, _ => pure ()
       if pid = "C01" then
         r := r.specFail (c01get cfg r.rops rt n (o.get.getD "?"))
         r := r.specFail (c01 cfg r.rops uni o)
@@ -450,7 +461,13 @@ def check (pid : String) (j : Json) : Except String Verdict := do
       for e in o.cache rt do
         if (lookupC prev rt e.1).isNone && !(idleSince.any (fun x => x.1 = rt && x.2.1 = e.1)) then
           idleSince := idleSince ++ [(rt, e.1, now)]
-      idleSince := idleSince.filter (fun x => !(x.1 = rt) || (lookupC o rt x.2.1).isSome)
+      -- (an entry the control plane removes keeps its access record: it is still subscribed and ages like any other)
+      if pid = "C19" then
+        r := r.specFail (c19crossed prev o evicted)
+        for sl in resp.slots do
+          match sl with
+          | .good n v => current := (current.filter (fun e => !(e.1 = rt && e.2.1 = n))) ++ [(rt, n, v)]
+          | _ => pure ()
       if pid = "C19" && (lookupC prev rt "").isNone then r := r.specFail (c01 cfg r.rops uni o)
       if pid = "C01" then r := r.specFail (c01 cfg r.rops uni o)
       if pid = "C02" then r := r.specFail (c02 prev o (some rt) v nonce resp.decodes sendOk)
